@@ -3,7 +3,7 @@
    certificate of Model.drop_closedb.  On well-formed models the certificates hold, so this is Inline.inline_pass (the
    structural correspondence compares THIS function with the implementation). *)
 From Coq Require Import ZArith NArith List Bool Lia.
-From IRV Require Import Base.Exn Gen.C05Gen C05.Model C05.Inline C05.InlineCert.
+From IRV Require Import Base.Exn Gen.C05Gen C05.Model C05.Inline C05.InlineCert C05.Proofs18.
 Import ListNotations.
 Open Scope N_scope.
 
@@ -15,32 +15,34 @@ Definition inline_at_c (fuel : nat) (m : model) (k : vid) (fv fg : N) : option (
 
 Definition istate := (model * N * N * list opid)%type.
 
+Definition ig_loop (rec : gref -> istate -> istate) (f : nat) (r : gref) :=
+  fix loop (steps : nat) (pos : nat) (st : istate) {struct steps} : istate :=
+    match steps with
+    | O => st
+    | S steps' =>
+      let '(m, fv, fg, inld) := st in
+      match get_gref m r with
+      | None => st
+      | Some g =>
+        match nth_error (g_nodes g) pos with
+        | None => st
+        | Some n =>
+          if is_call_node m n then
+            match inline_at_c f m (node_key n) fv fg with
+            | Some (m', fv', fg') => loop steps' pos (m', fv', fg', n_op n :: inld)
+            | None => loop steps' (S pos) st
+            end
+          else
+            let st' := fold_left (fun st sg => rec (GSub sg) st) (attr_graphs (n_attrs n)) st in
+            loop steps' (S pos) st'
+        end
+      end
+    end.
+
 Fixpoint inline_graph_c (fuel : nat) (r : gref) (st : istate) {struct fuel} : istate :=
   match fuel with
   | O => st
-  | S f =>
-    (fix loop (steps : nat) (pos : nat) (st : istate) {struct steps} : istate :=
-       match steps with
-       | O => st
-       | S steps' =>
-         let '(m, fv, fg, inld) := st in
-         match get_gref m r with
-         | None => st
-         | Some g =>
-           match nth_error (g_nodes g) pos with
-           | None => st
-           | Some n =>
-             if is_call_node m n then
-               match inline_at_c f m (node_key n) fv fg with
-               | Some (m', fv', fg') => loop steps' pos (m', fv', fg', n_op n :: inld)
-               | None => loop steps' (S pos) st
-               end
-             else
-               let st' := fold_left (fun st sg => inline_graph_c f (GSub sg) st) (attr_graphs (n_attrs n)) st in
-               loop steps' (S pos) st'
-           end
-         end
-       end) (fuel * 16)%nat O st
+  | S f => ig_loop (inline_graph_c f) f r (fuel * 16)%nat O st
   end.
 
 Definition inline_funcs_c (fuel : nat) (done : list opid) (st : istate) : istate :=
@@ -57,7 +59,32 @@ Definition delete_inlined (fuel : nat) (inld : list opid) (m : model) : model :=
   let LN := live_keys fuel keep m in
   if drop_closedb m keep LN && dropped_bodies_no_inits m keep then drop_funcs keep m else m.
 
+(* After the certified steps over the main graph and its subgraphs no call is left there: the functions are dead code.
+   What Inline.inline_pass then does (inline the calls inside the bodies of the functions that were not inlined, delete the
+   inlined ones) only changes dead code: accepted with the certificate that the result agrees with m1 on everything that
+   is live from the main graph (Model.drop_closedb + Proofs18.live_agreeb). *)
+Definition inline_rest_raw (fuel : nat) (st1 : istate) : model :=
+  let '(m1, fv1, fg1, inlA) := st1 in
+  let '(m2, fv2, fg2, inlB) :=
+      fold_left (fun (st : istate) i =>
+                   let '(mm, _, _, inld) := st in
+                   match nth_error (m_funcs mm) i with
+                   | Some fn => if existsb (opid_eqb (f_id fn)) inlA then st else inline_graph fuel (GFunc i) st
+                   | None => st
+                   end) (seq 0 (length (m_funcs m1))) (m1, fv1, fg1, inlA) in
+  mkModel (m_main m2) (m_subs m2) (filter (fun fn => negb (existsb (opid_eqb (f_id fn)) inlB)) (m_funcs m2)).
+
+Definition noopfuncb (m : model) : bool :=
+  forallb (fun fn => negb (is_identity_op (f_id fn) || is_constant_op (f_id fn))) (m_funcs m).
+
+Definition dead_rest_okb (fuel : nat) (m1 mf : model) : bool :=
+  let LN := live_keys fuel [] m1 in
+  if drop_closedb m1 [] LN then if live_agreeb m1 mf [] LN then if wfb mf then noopfuncb mf else false else false else false.
+
 Definition inline_pass_c (fuel : nat) (m : model) (fv fg : N) : model :=
   let st1 := inline_graph_c fuel GMain (m, fv, fg, []) in
-  let st2 := inline_funcs_c fuel (snd st1) st1 in
-  delete_inlined fuel (snd st2) (fst (fst (fst st2))).
+  let mf := inline_rest_raw fuel st1 in
+  if dead_rest_okb fuel (fst (fst (fst st1))) mf then mf
+  else (* a call is left in the live region: certified steps inside the function bodies, certified deletion *)
+    let st2 := inline_funcs_c fuel (snd st1) st1 in
+    delete_inlined fuel (snd st2) (fst (fst (fst st2))).
